@@ -239,6 +239,7 @@ def extra_checks(units, wd, tier, seed):
 
 
 META = dict(
+    technique='CBMC 6.11 function contracts (dfcc): probe payload with ghost liveness discipline (Optional); interface stubs of the type-erased handle and an exact std::unique_ptr model (Any)',
     level="proof",
     level_text="Optional<Probe> is instantiated with a probe payload whose special member functions are stubs that assert the liveness discipline in ghost state (no construction over a live object, no assignment/copy/destruction on storage without a live object). Every constructor, assignment (incl. self-assignment and assignment from empty wrappers), reset, emplace and the destructor is enforced against the invariant 'hasValue <=> the storage holds a live payload' and the value-type postconditions written from the statement (engaged exactly when the last operation gave a value, value equals the source's, sources unchanged, exactly one destruction per construction), for arbitrary engaged/empty pre-states. Storage alignment is a static obligation on clang's record layout of the instantiation.",
     level_note="One payload type (probe with an int) stands for every payload satisfying the liveness discipline; cross-type Optional<U>->Optional<T> conversions, value_or, make_optional and Optional's toString are NOT under contract. utility::Any (unit c09_any): default/copy construction, copy assignment, destruction, valid, ==, != and toString are proved against interface stubs of the type-erased handle (clone / isSame / valueTypeID / delete) with an exact single-ownership model of std::unique_ptr: a copy holds a value exactly when its source does and owns its own clone, assignment destroys the previous value exactly once, destruction destroys the held value exactly once, and NO operation reaches the handle of an empty Any (comparison and printing never crash). Any::get<T>/is<T> (typeid) and the templated value constructor/assignment are not under contract here (the typed reads are covered in C10 against stubs). History = induction over operations preserving the invariant (stated, not mechanised).",
